@@ -36,11 +36,15 @@ with open(os.path.join(V, 'seeded', 'README.md'), 'w') as f:
         'C02-9': 'exit 2: two-phase erase through a local vector of iterators (same shape as the neutral twin RE2)',
         'C19-11': 'exit 2: as C02-9',
         'C08-10': 'exit 2: as C02-9 (ut_map)',
+        'C11-22': 'exit 2: hinted multimap re-insertion with lower_bound as the hint (tie order among equal counts; twin pair SC1)',
+        'C14-26': 'NOT DECIDED: as C14-20, float versus double product (twin pair SC2)',
+        'C08-23': 'NOT DECIDED (exit 0): a hand-written move constructor leaves the partition iterator dangling - constructors and special members are outside the per-operation analysis (twin pair TF1, DESIGN 13.4p)',
+        'C18-23': 'NOT DECIDED (exit 0): an iterator-category trait lets single-pass ranges be measured (consumed) first - dispatch on type traits of the caller\'s iterator (twin pair TF4, DESIGN 13.4p)',
     }
     none = [r for r in rows if r[3] == '**none**']
     if none:
         f.write('\n## Not reported\n\nThese end ANALYSIS-INCOMPLETE (exit 2) on the checks concerned - the engine names the construct it has no semantics for - '
-                'or, for C14-20, are outside what is decided.  For the twin pairs the behaviour-preserving twin ends the same way, which is why no verdict is given.\n\n')
+                'or, where marked NOT DECIDED, are outside what is decided (these exit 0).  For the twin pairs the behaviour-preserving twin ends the same way, which is why no verdict is given.\n\n')
         f.write('| id | why |\n|---|---|\n')
         for r in none:
             f.write('| %s | %s |\n' % (r[0], why.get(r[0], 'exit 2 (see `./check %s --repo <patched tree>`)' % r[1])))
